@@ -9,6 +9,7 @@ import (
 	"strconv"
 	"strings"
 	"sync"
+	"unicode"
 	"unicode/utf8"
 
 	"github.com/go-text/typesetting/font"
@@ -257,6 +258,12 @@ type Opts struct {
 	ValidOnly bool // C12: valid scalar values only, in-range bounds, shaping API only
 	Spacing   bool // C12: draw spacing values and run-position flags
 	NoHB      bool // shaping API only
+	// Long runs (beyond the library's internal constants: 64-entry AAT ligature stack, 32/64-glyph
+	// context limits, 5-rune context, ...): LongPct percent of the cases (default 6; 2.5 x that on faces
+	// with morx or a complex-shaper script) get a run of 65..LongMax runes (default 600) built by
+	// repeating a few short units with variation. LongPct < 0 disables the class.
+	LongPct int
+	LongMax int
 }
 
 var commonFeatures = []string{
@@ -561,13 +568,41 @@ func Draw(t *rapid.T, face int, o Opts) Case {
 	if maxLen <= 0 {
 		maxLen = 64
 	}
+	var pair *Pair
 	if up := UpstreamPairs(); face < 0 && len(up) > 0 && s.Intn("upstreampair", 8) == 0 {
 		// a text the upstream suite shapes with this very font (reaches font-specific lookups that
-		// random text seldom triggers), as is, cut, or with a generated prefix/suffix
-		pr := up[s.Intn("pair", len(up))]
-		f := p.All[pr.Face]
-		c := Case{Font: f.File, Index: f.Index}
-		text := pr.Text
+		// random text seldom triggers)
+		pair = &up[s.Intn("pair", len(up))]
+		face = pair.Face
+	}
+	if face < 0 {
+		face = p.DrawFace(s)
+	}
+	f := p.All[face]
+	info := &p.Info[face]
+	c := Case{Font: f.File, Index: f.Index}
+
+	// long-run class
+	longPct := o.LongPct
+	if longPct == 0 {
+		longPct = 6
+	}
+	if info.Traits.Morx || info.Complex {
+		longPct = longPct * 5 / 2
+	}
+	if longPct > 0 && s.Intn("longrun", 100) >= 100-longPct { // 0 (shrink target) = ordinary class
+		var must []rune
+		if pair != nil {
+			must = pair.Text
+		}
+		c.Text = longText(t, s, face, o, must)
+		Params(s, &c, info, o)
+		return c
+	}
+
+	if pair != nil {
+		// the upstream text as is, cut, or with a generated prefix/suffix
+		text := pair.Text
 		switch s.Intn("pairedit", 4) {
 		case 1:
 			a := s.Intn("cutfrom", len(text))
@@ -584,15 +619,9 @@ func Draw(t *rapid.T, face int, o Opts) Case {
 			text = text[:maxLen]
 		}
 		c.Text = append([]rune{}, text...)
-		Params(s, &c, &p.Info[pr.Face], o)
+		Params(s, &c, info, o)
 		return c
 	}
-	if face < 0 {
-		face = p.DrawFace(s)
-	}
-	f := p.All[face]
-	info := &p.Info[face]
-	c := Case{Font: f.File, Index: f.Index}
 	scripts := []string(nil)
 	// mostly the scripts the font was made for (plus latin); sometimes anything
 	if len(info.Alphabets) > 0 && s.Intn("ownscripts", 10) < 7 {
@@ -621,6 +650,199 @@ func Draw(t *rapid.T, face int, o Opts) Case {
 	}
 	Params(s, &c, info, o)
 	return c
+}
+
+// ---- long runs ----
+
+// markSequences are combining sequences appended to a base: stacks that compose, reorder or
+// ligate in many fonts (two marks that AAT/GSUB fonts ligate, canonical reordering pairs, a
+// decomposing mark, script marks).
+var markSequences = [][]rune{
+	{0x0308, 0x0301}, {0x0301}, {0x0308}, {0x0300, 0x0301, 0x0302}, {0x0323, 0x0302}, {0x0327, 0x0301}, {0x0344}, {0x0301, 0x0323},
+	{0x064E, 0x0651}, {0x0651, 0x0650}, {0x05BC, 0x05B0}, {0x093C, 0x094D}, {0x0E48, 0x0E33}, {0x0303, 0x0304, 0x0305, 0x0306}, {0x20DD}, {0xFE0F},
+}
+
+var ligatingSequences = [][]rune{
+	[]rune("fi"), []rune("ffi"), []rune("ff"), []rune("fl"), []rune("ffl"), []rune("ft"), []rune("Th"), []rune("AV"), []rune("To"), []rune("--"), []rune("..."),
+	{0x0644, 0x0627}, {0x0644, 0x0644, 0x0647}, {0x0915, 0x094D, 0x0937}, {0x1F1EB, 0x1F1F7}, {0x1F468, 0x200D, 0x1F469},
+}
+
+type fontClasses struct{ bases, marks []rune }
+
+var (
+	classesMu sync.Mutex
+	classes   = map[int]*fontClasses{}
+	pairsOf   map[int][]int
+)
+
+// classesOf splits the sample of the font's own runes into marks and others.
+func classesOf(face int) *fontClasses {
+	classesMu.Lock()
+	defer classesMu.Unlock()
+	if fc, ok := classes[face]; ok {
+		return fc
+	}
+	fc := &fontClasses{}
+	for _, r := range textgen.FontRunes(ThePool().All[face].Face.Font, FontPoolSize) {
+		if unicode.Is(unicode.M, r) {
+			fc.marks = append(fc.marks, r)
+		} else {
+			fc.bases = append(fc.bases, r)
+		}
+	}
+	classes[face] = fc
+	return fc
+}
+
+// pairsOfFace lists the upstream texts written for a face.
+func pairsOfFace(face int) []int {
+	classesMu.Lock()
+	defer classesMu.Unlock()
+	if pairsOf == nil {
+		pairsOf = map[int][]int{}
+		for i, pr := range UpstreamPairs() {
+			pairsOf[pr.Face] = append(pairsOf[pr.Face], i)
+		}
+	}
+	return pairsOf[face]
+}
+
+func cleanRunes(rs []rune, validOnly bool) []rune {
+	if !validOnly {
+		return rs
+	}
+	out := make([]rune, len(rs))
+	for i, r := range rs {
+		if r < 0 || r > 0x10FFFF || r >= 0xD800 && r <= 0xDFFF {
+			r = 0xFFFD
+		}
+		out[i] = r
+	}
+	return out
+}
+
+// longText builds a run of 65..LongMax runes: an optional marks-first head, a body that repeats a
+// few short units (one of them dominant, so that long homogeneous stretches occur) with occasional
+// stray runes, and a tail that ends the run in a mark cluster or a ligating sequence, so that
+// whatever a shaper stacks, counts or looks back over is exercised beyond its internal limits.
+func longText(t *rapid.T, s Source, face int, o Opts, must []rune) []rune {
+	p := ThePool()
+	info := &p.Info[face]
+	fc := classesOf(face)
+	longMax := o.LongMax
+	if longMax < 66 {
+		longMax = 600
+	}
+	var target int
+	switch k := s.Intn("longclass", 10); {
+	case k <= 5:
+		target = 65 + s.Intn("long65", 64)
+	case k <= 8:
+		target = 129 + s.Intn("long129", 172)
+	default:
+		target = 301 + s.Intn("long301", 300)
+	}
+	if target > longMax {
+		target = longMax
+	}
+	alph := []string{"latin"}
+	if len(info.Alphabets) > 0 {
+		alph = info.Alphabets
+	}
+	base := func() rune {
+		if len(fc.bases) > 0 && s.Intn("basefromfont", 4) != 0 {
+			return fc.bases[s.Intn("fontbase", len(fc.bases))]
+		}
+		a := textgen.Alphabets[alph[s.Intn("basealph", len(alph))]]
+		return a[s.Intn("baseletter", len(a))]
+	}
+	marks := func() []rune {
+		if len(fc.marks) > 0 && s.Intn("marksfromfont", 3) == 0 {
+			n := 1 + s.Intn("nfontmarks", 3)
+			var out []rune
+			for i := 0; i < n; i++ {
+				out = append(out, fc.marks[s.Intn("fontmark", len(fc.marks))])
+			}
+			return out
+		}
+		return markSequences[s.Intn("markseq", len(markSequences))]
+	}
+	upstream := func() []rune {
+		ids := pairsOfFace(face)
+		if len(ids) == 0 {
+			return textgen.Snippets[s.Intn("snippet", len(textgen.Snippets))]
+		}
+		tx := UpstreamPairs()[ids[s.Intn("facepair", len(ids))]].Text
+		if len(tx) > 16 {
+			a := s.Intn("paircut", len(tx)-15)
+			tx = tx[a : a+16]
+		}
+		return tx
+	}
+	unit := func() []rune {
+		switch s.Intn("unitkind", 8) {
+		case 0, 1:
+			return []rune{base()}
+		case 2, 3:
+			return append([]rune{base()}, marks()...)
+		case 4:
+			return textgen.Snippets[s.Intn("snippet", len(textgen.Snippets))]
+		case 5:
+			return upstream()
+		case 6:
+			return textgen.Text(t, textgen.Opts{MaxLen: 4, FontPool: fc.bases, Scripts: alph, Hostile: 25, NoInvalid: o.ValidOnly})
+		default:
+			return ligatingSequences[s.Intn("ligseq", len(ligatingSequences))]
+		}
+	}
+	units := make([][]rune, 2+s.Intn("nunits", 4))
+	for i := range units {
+		if units[i] = unit(); len(units[i]) == 0 {
+			units[i] = []rune{base()}
+		}
+	}
+	if len(must) > 0 {
+		if len(must) > 16 {
+			must = must[:16]
+		}
+		units[0] = must
+	}
+	var out []rune
+	if s.Intn("marksfirst", 3) == 0 {
+		out = append(out, marks()...)
+	}
+	for len(out) < target-6 {
+		switch k := s.Intn("bodypick", 10); {
+		case k <= 5:
+			out = append(out, units[0]...)
+		case k <= 8:
+			out = append(out, units[s.Intn("bodyunit", len(units))]...)
+		default:
+			if s.Intn("strayhostile", 2) == 0 {
+				out = append(out, textgen.Hostile[s.Intn("hostile", len(textgen.Hostile))])
+			} else {
+				out = append(out, base())
+			}
+		}
+	}
+	// tail
+	switch s.Intn("tailkind", 5) {
+	case 0, 1:
+		out = append(append(out, base()), marks()...)
+	case 2:
+		out = append(out, ligatingSequences[s.Intn("tailligseq", len(ligatingSequences))]...)
+	case 3:
+		out = append(out, upstream()...)
+	default:
+		out = append(out, units[s.Intn("tailunit", len(units))]...)
+	}
+	if s.Intn("afterspace", 3) == 0 {
+		out = append(out, ' ', base())
+	}
+	if len(out) > longMax {
+		out = out[:longMax]
+	}
+	return cleanRunes(append([]rune{}, out...), o.ValidOnly)
 }
 
 // WordSeparators is the list documented by shaping.Output.AddWordSpacing (CSS Text 3 word separators).
